@@ -244,14 +244,14 @@ impl Default for OpWeights {
 pub fn op(ps: u32, w: OpWeights) -> impl Strategy<Value = Op> {
     let b = || any::<u16>();
     prop_oneof![
-        w.put => (b(), new_key_sel(), val_sel(ps), 0u8..11, 0u8..11)
+        (w.put).max(1) => (b(), new_key_sel(), val_sel(ps), 0u8..11, 0u8..11)
             .prop_map(|(b, k, v, kk, vk)| Op::Put { b, k, v, kk, vk }),
-        w.put / 2 => (b(), key_sel(), val_sel(ps), 0u8..11, 0u8..11)
+        (w.put / 2).max(1) => (b(), key_sel(), val_sel(ps), 0u8..11, 0u8..11)
             .prop_map(|(b, k, v, kk, vk)| Op::Put { b, k, v, kk, vk }),
-        w.get => (b(), key_sel()).prop_map(|(b, k)| Op::Get { b, k }),
-        w.get / 2 + 1 => (b(), key_sel()).prop_map(|(b, k)| Op::GetKv { b, k }),
-        w.delete => (b(), key_sel()).prop_map(|(b, k)| Op::Delete { b, k }),
-        w.put_run => (
+        (w.get).max(1) => (b(), key_sel()).prop_map(|(b, k)| Op::Get { b, k }),
+        (w.get / 2 + 1).max(1) => (b(), key_sel()).prop_map(|(b, k)| Op::GetKv { b, k }),
+        (w.delete).max(1) => (b(), key_sel()).prop_map(|(b, k)| Op::Delete { b, k }),
+        (w.put_run).max(1) => (
             b(),
             prop::collection::vec(prop::sample::select(vec![b'a', b'k', b'z']), 0..2),
             0u16..60,
@@ -269,19 +269,19 @@ pub fn op(ps: u32, w: OpWeights) -> impl Strategy<Value = Op> {
                 klen,
                 vlen
             }),
-        w.delete_run => (b(), any::<u16>(), 1u8..40).prop_map(|(b, start, n)| Op::DeleteRun { b, start, n }),
-        w.bucket_get => (b(), key_sel(), 0u8..11).prop_map(|(b, k, kk)| Op::GetBucket { b, k, kk }),
-        w.bucket_create => (b(), new_key_sel(), 0u8..11).prop_map(|(b, k, kk)| Op::CreateBucket { b, k, kk }),
-        w.bucket_create / 2 + 1 => (b(), key_sel(), 0u8..11).prop_map(|(b, k, kk)| Op::GetOrCreate { b, k, kk }),
-        w.bucket_delete => (b(), prop_oneof![4 => any::<u16>().prop_map(KeySel::ExBucket), 1 => key_sel()], 0u8..11)
+        (w.delete_run).max(1) => (b(), any::<u16>(), 1u8..40).prop_map(|(b, start, n)| Op::DeleteRun { b, start, n }),
+        (w.bucket_get).max(1) => (b(), key_sel(), 0u8..11).prop_map(|(b, k, kk)| Op::GetBucket { b, k, kk }),
+        (w.bucket_create).max(1) => (b(), new_key_sel(), 0u8..11).prop_map(|(b, k, kk)| Op::CreateBucket { b, k, kk }),
+        (w.bucket_create / 2 + 1).max(1) => (b(), key_sel(), 0u8..11).prop_map(|(b, k, kk)| Op::GetOrCreate { b, k, kk }),
+        (w.bucket_delete).max(1) => (b(), prop_oneof![4 => any::<u16>().prop_map(KeySel::ExBucket), 1 => key_sel()], 0u8..11)
             .prop_map(|(b, k, kk)| Op::DeleteBucket { b, k, kk }),
-        w.read_misc => prop_oneof![
+        (w.read_misc).max(1) => prop_oneof![
             b().prop_map(|b| Op::NextInt { b }),
             (b(), 0u8..4).prop_map(|(b, extra)| Op::Scan { b, extra }),
             b().prop_map(|b| Op::Buckets { b }),
             b().prop_map(|b| Op::KvPairs { b }),
         ],
-        w.seek_range => prop_oneof![
+        (w.seek_range).max(1) => prop_oneof![
             (b(), key_sel(), 0u8..6).prop_map(|(b, k, n)| Op::Seek { b, k, n }),
             (b(), bound_sel(), bound_sel(), 0u8..6).prop_map(|(b, lo, hi, mode)| Op::Range { b, lo, hi, mode }),
         ],
